@@ -492,6 +492,28 @@ def pred_malvar_colour(inp):
     return True, f'{inner.shape[0] * inner.shape[1]} interior samples'
 
 
+def pred_malvar_ramp(inp):
+    """theorem malvar_affine_exact: affine luminance a*row + b*column plus constant colour offsets (r, g, b) is reconstructed exactly
+    in every channel at every sample two or more samples from the border"""
+    by = _impl()[1]
+    m, n = inp['shape']
+    a, b = inp['slope']
+    col = [float(x) for x in inp['colour']]
+    R, Cc = np.meshgrid(np.arange(m, dtype=float), np.arange(n, dtype=float), indexing='ij')
+    lum = a * R + b * Cc
+    rgb = by.demosaic_malvar(lum + _colour_mosaic(m, n, inp['cfa'], col), inp['cfa'])
+    if rgb.shape != (m, n, 3):
+        return False, f'shape {rgb.shape}'
+    scale = max(1.0, np.abs(lum).max() + max(abs(c) for c in col))
+    for k, nm in enumerate(('red', 'green', 'blue')):
+        err = np.abs(rgb[2:m - 2, 2:n - 2, k] - (lum + col[k])[2:m - 2, 2:n - 2])
+        if err.size and err.max() > 1e-12 * scale:
+            j, i = np.unravel_index(int(np.argmax(err)), err.shape)
+            return False, (f'affine luminance {a}*row + {b}*col with colour offsets {col}: {nm} channel reads {rgb[j + 2, i + 2, k]!r} at '
+                           f'interior sample ({j + 2}, {i + 2}), scene value {lum[j + 2, i + 2] + col[k]!r}')
+    return True, 'ok'
+
+
 def pred_wb(inp):
     by = _impl()[1]
     img = np.asarray(inp['img'], dtype=float)
@@ -713,7 +735,7 @@ def _layout_cases(rng, m, n, quick):
 PREDS = {'dn_range': pred_dn_range, 'dn_monotone': pred_dn_monotone, 'dn_formula': pred_dn_formula, 'dn_frames': pred_dn_frames, 'dn_lut': pred_dn_lut,
          'bin': pred_bin, 'tile': pred_tile, 'bin_tile_adjoint': pred_adjoint, 'expose_bin': pred_expose_bin, 'bayer_roundtrip': pred_bayer_roundtrip,
          'bayer_composite': pred_bayer_composite, 'malvar_native': pred_malvar_native, 'malvar_constant': pred_malvar_constant,
-         'malvar_colour': pred_malvar_colour,
+         'malvar_colour': pred_malvar_colour, 'malvar_ramp': pred_malvar_ramp,
          'wb_prescale': pred_wb, 'wb_safe': pred_wb_safe, 'wb_postscale': pred_wb_post, 'dn_real_rng': pred_dn_real_rng,
          'expose_draws': pred_expose_draws, 'mode_spellings': pred_mode_spellings, 'layouts': pred_layouts}
 
@@ -1172,6 +1194,9 @@ def correspondence(ctx):
                 desc = {'shape': [m, n], 'cfa': ucfa, 'colour': col}
                 _check(ctx, 'malvar_colour', {'shape': [m, n], 'cfa': ucfa, 'colour': col}, desc, True,
                        f'{cfa}/{"odd" if (m % 2 or n % 2) else "even"}/interior{(m - 4) * (n - 4)}')
+                slope = [float(x) for x in np.round(rng.uniform(-30, 30, 2), 2)]
+                _check(ctx, 'malvar_ramp', {'shape': [m, n], 'cfa': ucfa, 'colour': col, 'slope': slope}, dict(desc, slope=slope), True,
+                       f'{cfa}/{"odd" if (m % 2 or n % 2) else "even"}')
                 if rep == 0:
                     img = _colour_mosaic(m, n, cfa, col)
 
@@ -1312,6 +1337,10 @@ def search(ctx, hints):
                 ok, detail = _run_pred('malvar_colour', inp)
                 if not ok:
                     return found('malvar_colour', inp, detail)
+                inp = {'shape': [m, n], 'cfa': cfa, 'colour': col, 'slope': [3.0, -5.0]}
+                ok, detail = _run_pred('malvar_ramp', inp)
+                if not ok:
+                    return found('malvar_ramp', inp, detail)
     return None
 
 
@@ -1321,7 +1350,7 @@ def replay(inp):
     if name not in PREDS:
         print('no replay routine for item', name)
         return False
-    brief = {k: v for k, v in inp.items() if k in ('cfg', 'factor', 'cfa', 'frames', 'gains', 'saturation', 'shape', 'level', 'colour', 'dtype', 'seed', 'kind', 'fn', 'layouts', 'maps', 'lut')}
+    brief = {k: v for k, v in inp.items() if k in ('cfg', 'factor', 'cfa', 'frames', 'gains', 'saturation', 'shape', 'level', 'colour', 'slope', 'dtype', 'seed', 'kind', 'fn', 'layouts', 'maps', 'lut')}
     print(f'replaying {name}: {brief}')
     if name.startswith('dn_') and name != 'dn_real_rng':
         try:
@@ -1351,7 +1380,8 @@ MANIFEST_ENTRY = {
              '/ wb_postscale act on the native site / channel of each colour, Malvar copies the raw sample at the native site, '
              'kernels 5x5, symmetric, unit sum, uniform mosaic -> uniform image; the mosaic of ONE COLOUR (r, g, b) demosaicks to '
              '(r, g, b) in every channel at every sample >= 2 from the border, every size, both layouts (pins which filtered image '
-             'c1/c2/c3 serves which site; border: correspondence only); demosaic_deinterlace returns the red and blue planes '
+             'c1/c2/c3 serves which site; border: correspondence only), more generally Malvar is exact on affine luminance with '
+             'constant colour differences at those samples; demosaic_deinterlace returns the red and blue planes '
              'sample for sample and the mean of the two greens; safe white balance WITH UNIT GAINS leaves no '
              'inspected plane above its saturation level. TRANSLATED each run: ADC ceiling, container-width chain, the clip / gain / '
              'clip chain of expose statement by statement (nothing but shape handling / lut / return may follow the cast), '
